@@ -698,7 +698,7 @@ class BaseCfgLine(object):
             offspring = self.children
         else:
             offspring = self.all_children
-        return bool(len([ll for cobj in offspring if cobj.re_search(ll)]))
+        return bool(len([ll for cobj in offspring if cobj.re_search(ll, default=None) is not None]))
 
     # On BaseCfgLine()
     @junos_unsupported
